@@ -807,13 +807,22 @@ M('C18','poll-cancel-arm-returns','runtime/timed/queue.go','''		case <-polledEle
 		// return the result after the time is reached''','poll/')
 M('C18','poll-shutdown-returns-early','runtime/timed/queue.go','''			if t.shutdownFlags.HasBits(IgnorePendingTimeouts) {
 				timeutil.CleanupTimer(timer)
-				return polledElement.Value.Value
-			}
 ''','''			if !t.shutdownFlags.HasBits(PanicOnModificationsAfterShutdown) {
 				timeutil.CleanupTimer(timer)
+''','poll/value-only-when-due')
+M('C18','poll-delivers-without-second-look-at-cancel','runtime/timed/queue.go','''				select {
+				case <-polledElement.Value.cancel:
+					continue
+				default:
+				}
+
 				return polledElement.Value.Value
 			}
-''','poll/value-only-when-due')
+
+			// wait for the return value to become due''','''				return polledElement.Value.Value
+			}
+
+			// wait for the return value to become due''','poll/cancel-checked-before-delivery')
 M('C18','poll-cancelpending-delivers','runtime/timed/queue.go','''			if t.shutdownFlags.HasBits(CancelPendingElements) {
 				timeutil.CleanupTimer(timer)
 				var empty T
